@@ -943,7 +943,8 @@ class SimplexHOLWrapper:
         
         # Check the necessity to introduce new variables
         if not (len(ineq.jars) == 1 and ineq.jars[0].coeff == 1): # need to introduce a new variable
-            s = Var('$'+string.ascii_lowercase[self.simplex.index - 1]+'$', RealType)
+            # The solver shares one variable between inequalities with the same lhs
+            s = Var(self.simplex.matrix[ineq.jars], RealType)
             s_eq_pt = ProofTerm.assume(Eq(s, lhs))
             self.eq_pts[s] = s_eq_pt
             self.intro_eq.add(s_eq_pt)
